@@ -14,7 +14,7 @@ from keyshared import (ec, bip32, base58, NETWORKS, NETKEYS, N, P, H, on_backend
                        show_pub, spec_tokens, spec_key_tokens, mk_hd, mk_key, opt, rbytes)
 
 PROP = "C10"
-MODS = ["EmbitModel.Props.C10", "EmbitModel.Props.C10X"]
+MODS = ["EmbitModel.Props.C10", "EmbitModel.Props.C10X", "EmbitModel.Props.C10Y"]
 
 
 # ec_pubkey_parse of the pure-Python backend accepts coordinates >= p (C08's finding D10)
